@@ -94,3 +94,8 @@ def run(ctx):
     ctx.notes['traces_ending_exact'] = npred
     if npred == 0:
         raise tlc.TlcError('no trace reached exact reproduction: exactness clause would be vacuous')
+
+
+def selftest(ctx):
+    from . import selftest as ST
+    return ST.cross(ctx)
